@@ -454,7 +454,8 @@ def check_meta(sub: Subject, ref: Reference, rng, acc, sample=6):
             if "" in m or ("", None) in m:
                 return "meta-contains", f"{p}: '' in meta is True"
             acc.count("meta_query_forms")
-            for name, (_, ver, i, over) in want.items():
+            # (the argument forms are tried for ONE attached object per visit and handle kind: the listing forms above already cover all)
+            for name, (_, ver, i, over) in (rng.sample(sorted(want.items()), 1) if want else []):
                 cls, obj = stored_obj(name, ver, i, over)
                 for anc in schemas.parent_path(name, ver):
                     av = tuple(anc.version)
@@ -536,10 +537,10 @@ def check_queries(sub: Subject, ref: Reference, rng, acc, names, nstarts=3):
     mc = sub.mc
     nodes, groups = tree_paths(ref.f)
     dsets = [n for n in nodes if n not in groups]
-    starts = ["/"] + rng.sample(groups[1:], min(nstarts, len(groups) - 1)) + rng.sample(dsets, min(2, len(dsets)))
+    starts = ["/"] + rng.sample(groups[1:], min(nstarts, len(groups) - 1)) + rng.sample(dsets, min(1, len(dsets)))
     for name in names:
         va = version_args(name)
-        for ver in ([None] + rng.sample(va[1:], min(3, len(va) - 1))):
+        for ver in ([None] + rng.sample(va[1:], min(2, len(va) - 1))):
             for start in starts:
                 want = brute_query(ref, start, name, ver)
                 node = mc[start]
@@ -547,7 +548,7 @@ def check_queries(sub: Subject, ref: Reference, rng, acc, names, nstarts=3):
                          ("node.metador.query", lambda: node.metador.query(name, ver))]
                 if start == "/":
                     forms.append(("container.query", lambda: mc.metador.query(name, ver)))
-                if ver is not None:  # the other documented argument forms of (schema, version)
+                if ver is not None and rng.random() < 0.15:  # the other documented argument forms of (schema, version), sampled
                     forms.append(("node.metador.query((name, version))", lambda: node.metador.query((name, ver))))
                     forms.append(("node.metador.query(PluginRef)", lambda: node.metador.query(schemas.PluginRef(name=name, version=ver))))
                     if any(tuple(r.version) == tuple(ver) for r in schemas.versions(name)):
@@ -712,7 +713,7 @@ def run_history(acc, d, driver, seed, nops, monitors, ops=None, record=True, fam
                     mm = (r[0], f"after {op}: {r[1]}")
                     break
             if "query" in monitors and (rng.random() < 0.12 or step == (nops if ops is None else len(ops)) - 1):
-                r = check_queries(sub, ref, rng, acc, rng.sample(ALLNAMES, 3) + ["fam.base", rng.choice(["core.file", "core.dir", "fam.mid"])], nstarts=2)
+                r = check_queries(sub, ref, rng, acc, rng.sample(ALLNAMES, 2) + ["fam.base", rng.choice(["core.file", "core.dir", "fam.mid"])], nstarts=1)
                 if r:
                     mm = (r[0], f"after {op}: {r[1]}")
                     break
